@@ -38,6 +38,7 @@ type c08Inst struct {
 	model   []c08El
 	stale   []*document.Paragraph
 	tokN    int
+	saved   bool
 	lastNT  bool
 	toks    map[interface{}]string
 }
@@ -95,6 +96,7 @@ func init() {
 		c08Op{name: "AddFooterWithPageNumber", kind: "sect", arg: 3},
 		c08Op{name: "SetPageOrientation", kind: "sect", arg: 4},
 	)
+	c08Ops = append(c08Ops, c08Op{name: "ToBytes", kind: "save"})
 	c08Ops = append(c08Ops, c08Op{name: "RemoveParagraph(nil)", kind: "rmNil"},
 		c08Op{name: "RemoveParagraph(foreign)", kind: "rmForeign"},
 		c08Op{name: "RemoveParagraph(stale)", kind: "rmStale"})
@@ -321,6 +323,19 @@ func (i *c08Inst) Apply(op int) (string, []rep.Violation) {
 		i.lastNT = true
 		viol = append(viol, i.compare(o.name)...)
 		return "appended", viol
+	case "save":
+		// serialising is an observation: it must not change the body
+		var err error
+		if p := guard(func() { _, err = i.doc.ToBytes() }); p != "" {
+			i.resync()
+			return "panic", []rep.Violation{i.viol("panic|"+panicClass(p), o.name, p)}
+		}
+		if err != nil {
+			viol = append(viol, i.viol("unexpected-error", o.name, err.Error()))
+		}
+		i.saved = true
+		viol = append(viol, i.compare(o.name)...)
+		return "saved", viol
 	case "toc":
 		// not one of the appends the statement lists: only the frame condition is demanded
 		if p := guard(func() { i.doc.GenerateTOC(&document.TOCConfig{Title: "TOC", MaxLevel: 3}) }); p != "" {
@@ -468,6 +483,9 @@ func (i *c08Inst) Key() string {
 	if len(i.stale) > 0 {
 		b.WriteString("|stale")
 	}
+	if i.saved {
+		b.WriteString("|saved") // a serialisation happened earlier in the history
+	}
 	// section settings content can differ (margins/header set or not) but no operation's effect on the list depends on it
 	return b.String()
 }
@@ -511,6 +529,19 @@ func (i *c08Inst) Deep() []rep.Violation {
 		}
 		if want[k].tok != "" && !strings.Contains(got[k].tok, want[k].tok) {
 			ok = false
+		}
+	}
+	// saving is read-only: the in-memory list still equals the model, and a second save gives the same order
+	if v := i.compare("ToBytes(deep)"); len(v) > 0 {
+		out = append(out, v...)
+	}
+	if pkg2, _, e2 := saveRead(i.doc); e2 == "" && pkg2.Body() != nil {
+		var got2 []ex
+		for _, c := range pkg2.Body().Elems() {
+			got2 = append(got2, ex{c.Local, c.WText() + mathText(c)})
+		}
+		if fmt.Sprint(got2) != fmt.Sprint(got) {
+			out = append(out, rep.Violation{Sig: "second-save-differs", Clause: "second-save-differs", What: fmt.Sprintf("first save %v, second save %v", got, got2)})
 		}
 	}
 	if !ok {
